@@ -22,7 +22,7 @@ def structure_case():
 
     def fn(c):
         K = api.real(c, "K", pos=True)
-        s = api.tensor(c, "s", (1,), lo=-1, hi=1) if c.mode == "concrete" else api.tensor(c, "s", (1,))
+        s = api.tensor(c, "s", (1,))
         t = api.tensor(c, "t", (1,), pos=True)
         v = api.tensor(c, "v", (1,), pos=True)
         e = lambda x: api.elem(x, 0)  # noqa: E731
@@ -66,7 +66,7 @@ def sign_case(which):
 
     def fn(c):
         K = api.real(c, "K", pos=True)
-        s = api.tensor(c, "s", (1,), lo=-1, hi=1) if c.mode == "concrete" else api.tensor(c, "s", (1,))
+        s = api.tensor(c, "s", (1,))
         t = api.tensor(c, "t", (1,), pos=True)
         v = api.tensor(c, "v", (1,), pos=True)
         e = lambda x: api.elem(x, 0)  # noqa: E731
